@@ -602,6 +602,11 @@ def run(ctx):
                 z2.assign("size_", t)
                 z2.close()
                 ctx.check(z2.entails("size_", "capacity_", 0) and z2.entails(Z, "size_", 0), "R06.4", f, "size-assignment-bounded:" + tag, "size_ is assigned %s which is not provably within [0, capacity_]" % fmt(node.get("r")), (f, node.get("ln")))
+                # ... and an assignment never GROWS the visible range: the slots between the old and the new size were not written here
+                shrinks = t is not None and z.entails(t[0], "size_", -t[1])
+                ctx.check(shrinks, "R06.5", f, "size-assignment-does-not-grow:" + tag,
+                          "size_ is assigned %s at line %s, which may exceed the current size: the slots in between become visible without having been filled - elements popped or erased earlier "
+                          "(or never stored) reappear through at() and iteration" % (fmt(node.get("r")), node.get("ln")), (f, node.get("ln")), why_ok="%s <= size_" % fmt(node.get("r")))
         # ---- R06.6
         if f.name in SINGLE_ELEMENT_OPS and not _is_range_op(f):
             writes = set()
